@@ -9,12 +9,12 @@ ROOT = os.path.dirname(os.path.dirname(os.path.abspath(__file__)))
 
 
 def status():
-    print("| id | level | obligations | discharged | bounded stand-ins | known findings printed | quick wall |")
-    print("|---|---|---|---|---|---|---|")
+    print("| id | level | obligations | discharged | failing as recorded known findings | bounded stand-ins | known findings printed | wall |")
+    print("|---|---|---|---|---|---|---|---|")
     for p in sorted(glob.glob(os.path.join(ROOT, "evidence", "C*.json"))):
         e = json.load(open(p))
         c = e["coverage"]
-        print("| %s | %s | %d | %d | %d | %d | %d s |" % (e["property_id"], e["level"], c["obligations"], c["discharged"], len(c.get("bounded_standins", [])),
+        print("| %s | %s | %d | %d | %d | %d | %d | %d s |" % (e["property_id"], e["level"], c["obligations"], c["discharged"], c.get("failing_as_recorded_known_findings", 0), len(c.get("bounded_standins", [])),
                                                       len(c.get("known_findings_printed", [])), round(e["wall_s"])))
 
 
